@@ -41,7 +41,7 @@ TAU_PERM = 3e-3    # worst observed 2.7e-4
 
 
 def tau_rot(kind, L):
-    cat = "stockholder" if kind == "stockholder" else "atomic" if kind == "atomic-api" else "crystal" if kind == "crystal" else "smooth"
+    cat = "stockholder" if kind.startswith("stockholder") else "atomic" if kind == "atomic-api" else "crystal" if kind == "crystal" else "smooth"
     return TAU_ROT_BY[cat][L]
 
 
@@ -69,6 +69,9 @@ def perms(n):
     return [tuple(base[::-1]), tuple(base[1:] + base[:1]), tuple(base[2:] + base[:2])]
 
 
+pose_R = np.eye(3)
+
+
 def descriptor(kind, L, zs, pos, ext=None, channel=None, isovalue=None):
     from chmpy.shape import SHT, promolecule_density_descriptor, stockholder_weight_descriptor
     from chmpy.core.molecule import Molecule
@@ -92,6 +95,16 @@ def descriptor(kind, L, zs, pos, ext=None, channel=None, isovalue=None):
         c = np.mean(pos, axis=0, dtype=np.float32)
         dists = np.linalg.norm(pos - c, axis=1)
         return stockholder_weight_descriptor(sht, zs, pos, ez, ep, origin=c, bounds=(max(0.05, np.min(dists) / 2), np.max(dists) + 10.0), **kw)
+    if kind == "stockholder-default":
+        # every optional argument left at its default (origin = centroid of the interior atoms, bounds (0.1, 20))
+        ez, ep = ext
+        return stockholder_weight_descriptor(sht, zs, pos, ez, ep, **kw)
+    if kind == "promolecule-origin":
+        # explicit origin away from the centroid (must follow the molecule)
+        if isovalue is not None:
+            kw["isovalue"] = isovalue
+        o = (np.mean(pos, axis=0) + np.array([0.2, -0.1, 0.15]) @ pose_R.T).astype(np.float32)
+        return promolecule_density_descriptor(sht, zs, pos, origin=o, **kw)
     if kind == "atomic-api":
         m = Molecule([Element.from_atomic_number(int(z)) for z in zs], np.array(pos, dtype=float))
         return np.asarray(m.atomic_shape_descriptors(l_max=L))
@@ -116,7 +129,9 @@ def mol_worker(part, job):
     syms, p0 = MOLS[name]
     zs = zs_of(syms)
     p0 = np.array(p0, dtype=float)
-    ext0 = exterior_for(name, zs, p0) if kind == "stockholder" else None
+    global pose_R
+    pose_R = np.eye(3)
+    ext0 = exterior_for(name, zs, p0) if kind.startswith("stockholder") else None
     case0 = {"kind": "mol", "mol": name, "L": L, "surface": kind, "channel": channel, "isovalue": isovalue, "seed": seed}
     tag = "%s:%s:L=%d" % (kind, channel or "shape", L)
     try:
@@ -166,6 +181,7 @@ def mol_worker(part, job):
     for ri, (w, R) in enumerate(rots):
         t = np.array(TRANSLATIONS[ri % 3])
         pose_perm = tuple(range(len(zs)))
+        pose_R = R
         run_pose("rotation", zs, p0 @ R.T + t, (ext0[0], ext0[1] @ R.T + t) if ext0 else None, tau_rot(kind, L),
                  "rotation %s + translation %s" % ("*".join(w), tuple(t)))
     part.nontriv((name, L, kind, channel, isovalue))
@@ -320,7 +336,9 @@ def run(ctx):
         for L in LMAX:
             # default: promolecule shape at isovalue 2e-4; deviations one axis at a time (thorough: full product)
             combos = [("promolecule", None, 2e-4), ("promolecule", None, 2e-3), ("promolecule", "d_norm", 2e-4), ("promolecule", "esp", 2e-4),
-                      ("stockholder", None, None), ("stockholder", "d_norm", None), ("stockholder", "esp", None), ("molecule-api", None, None)]
+                      ("stockholder", None, None), ("stockholder", "d_norm", None), ("stockholder", "esp", None), ("molecule-api", None, None),
+                      ("stockholder-default", None, None), ("stockholder-default", "d_norm", None), ("stockholder-default", "esp", None),
+                      ("promolecule-origin", None, 2e-4), ("promolecule-origin", "d_norm", 2e-4)]
             if L == 6:
                 combos.append(("atomic-api", None, None))
             if ctx.thorough:
@@ -336,7 +354,7 @@ def run(ctx):
                     jobs.append(("crystal", (fname, L, api, ri, ctx.seed)))
     jobs.sort(key=lambda j: -(j[1][1] if j[0] != "radial" else 0))
     ctx.pmap(worker, jobs)
-    ctx.rule = ("molecules %s x l_max %s x surfaces {promolecule (2 isovalues), stockholder with a 6-molecule exterior, Molecule API, per-atom API} x channels "
+    ctx.rule = ("molecules %s x l_max %s x surfaces {promolecule (2 isovalues; default and explicit off-centre origin), stockholder with a 6-molecule exterior (explicit and default origin/bounds), Molecule API, per-atom API} x channels "
                 "{none, d_norm, esp} (one deviation from the default at a time%s) x poses: %d rotations (BFS words of length <= 2 over 5 generators + a seed-rotated "
                 "one) combined with 3 translations, 2 pure translations, all atom orders (<= 4 atoms) / 3 orders (5 atoms), reversed exterior; radial-function "
                 "residuals; error reporting for excluded surfaces; bundled crystals in a rotated lattice through 4 Crystal APIs; distinct = (molecule, l_max, surface, "
